@@ -122,13 +122,13 @@ def history(rng, nops=(2, 8), invalid_share=0.3, dtype_focus=False):
         if rng.random() < invalid_share:
             bad = rng.choice(["add_incompatible", "iadd_incompatible", "mul_hist", "add_array", "fill_n_wshape", "neg_imul",
                               "zero_idiv", "set_dtype_bad", "sub_too_much", "item_range", "add_none", "neg_idiv",
-                              "merge_frac", "rdiv", "imul_array"])
+                              "merge_frac", "rdiv", "imul_array", "imul_overflow"])
             tags.append("bad:" + bad)
             if bad == "add_incompatible":
                 ops.append({"op": "add", "a": h, "b": 2, "out": nfree, "expect_refused": True}); nfree += 1
             elif bad == "iadd_incompatible":
                 ops.append({"op": "iadd", "h": h, "o": 2, "expect_refused": True})
-            elif bad in ("mul_hist", "add_array", "add_none", "rdiv", "imul_array"):
+            elif bad in ("mul_hist", "add_array", "add_none", "rdiv", "imul_array", "imul_overflow"):
                 ops.append({"op": "invalid", "what": bad, "h": h, "o": 1 - h if h < 2 else 0})
             elif bad == "fill_n_wshape":
                 vs = vals_near(rng, b, pairs, w, 3)
@@ -175,7 +175,8 @@ def history(rng, nops=(2, 8), invalid_share=0.3, dtype_focus=False):
                             "wkind": {"pyfloat": "float64", "pyint": "int64"}.get(wk, wk)})
             else:
                 ops.append({"op": "imul", "h": h, "c": "2", "k": wk})
-            ops.append({"op": "set_dtype", "h": h, "dtype": rng.choice(["int64", "int32", "int16", "float32", "float16"]),
+            rounded = any(o["op"] == "normalize" for o in ops)      # (rounded quotients: see the set_dtype kind below)
+            ops.append({"op": "set_dtype", "h": h, "dtype": rng.choice(["float32", "float16"] if rounded else ["int64", "int32", "int16", "float32", "float16"]),
                         "maybe_refused": True, "via_property": rng.random() < 0.5})
             if first == "fill_n":
                 ops.append({"op": "fill_n", "h": h, "vs": gen1.enc_vals([v2]), "ws": [rs(0.5 if isf else 3)],
